@@ -503,6 +503,29 @@ class Gen(object):
             self.expect(C.render(r))
         self.observe()
 
+    def l_map_factory_closure(self, var, filt=False):
+        """map / filter with a callback that a FACTORY returned (its captured variable lives in no active frame);
+        a module-level variable of the same name holds another value.  Every element's call sees the capture."""
+        self.begin("list.filter_factory_closure" if filt else "list.map_factory_closure")
+        k, mk, cb = self.uid("kq"), self.uid("mkq"), self.uid("cbq")
+        self.emit("%s = 100" % k)
+        if filt:
+            self.emit("%s = fn(%s: int) -> fn(int) -> bool {\n  return fn(x: int) -> bool {\n    return x > %s\n  }\n}" % (mk, k, k))
+            self.emit("%s = %s(1)" % (cb, mk))
+            self.emit("print %s.filter(%s)" % (var.name, cb))
+            r = self.model(lambda: C.filter_(var.obj, lambda x: x > 1))
+        else:
+            self.emit("%s = fn(%s: int) -> fn(int) -> int {\n  return fn(x: int) -> int {\n    return x * %s\n  }\n}" % (mk, k, k))
+            self.emit("%s = %s(3)" % (cb, mk))
+            self.emit("print %s.map(%s)" % (var.name, cb))
+            r = self.model(lambda: C.map_(var.obj, lambda x: C.i32(x * 3)))
+        if self.failed is not None:
+            return
+        self.expect(C.render(r))
+        self.emit("print %s" % k)
+        self.expect("100")
+        self.observe()
+
     def l_map_place(self, var, kind, target, arg=None):
         """`r = l.map(fn(x) { return <place read> })`: index (target[x]), inner (target[x], inner lists, shared),
         lookup (target[arg]), field (target.arg).  The result list must hold values, not pointers."""
@@ -1348,6 +1371,9 @@ def catalogue():
                 add("filter", sname, "%s,%s" % (e, cbn), lambda g: g.l_filter(pair(g, e, sz)[1], k))
                 add("filter", sname, "%s,%s,bound" % (e, cbn),
                     lambda g: (g.l_filter(pair(g, e, sz)[1], k, bind=True), g.failed is None and g.l_push(g.vars[0], NEW)))
+            if e == "int":
+                add("map", sname, "int,factory_made_capturing_callback", lambda g: g.l_map_factory_closure(pair(g, e, sz)[1]))
+                add("filter", sname, "int,factory_made_capturing_callback", lambda g: g.l_map_factory_closure(pair(g, e, sz)[1], True))
             # index_of
             add("index_of", "%s:absent" % sname, e, lambda g: g.l_index_of(pair(g, e, sz)[1], NEW))
             if sz:
